@@ -89,38 +89,42 @@ theorem free_of_count {p : DVT → Bool} {ts : List DVT} {u : DVT} {b : Bool}
 
 /-! ## The transitions as a relation -/
 
-inductive DVStep (n : Nat) (f : (Nat → Int) → Int) : DVS → DVT → DVS → DVT → Prop
+inductive DVStep (n : Nat) (f : (Nat → Int) → Int) (trig : Nat → Bool) : DVS → DVT → DVS → DVT → Prop
   | lock (s : DVS) (i : Nat) (v : Int) (sc : List (Nat × Int)) (h : s.upd i = false) :
-      DVStep n f s (.idle ((i, v) :: sc)) { s with upd := setAt s.upd i true } (.locked i v sc)
+      DVStep n f trig s (.idle ((i, v) :: sc)) { s with upd := setAt s.upd i true } (.locked i v sc)
   | same (s : DVS) (i : Nat) (v : Int) (sc : List (Nat × Int)) (h : s.val i = v) :
-      DVStep n f s (.locked i v sc) s (.rel3 i sc)
+      DVStep n f trig s (.locked i v sc) s (.rel3 i sc)
   | write (s : DVS) (i : Nat) (v : Int) (sc : List (Nat × Int)) (h : s.val i ≠ v) (hr : s.reg i = true) :
-      DVStep n f s (.locked i v sc) { s with val := setAt s.val i v } (.wrote i v sc)
+      DVStep n f trig s (.locked i v sc) { s with val := setAt s.val i v } (.wrote i v sc)
   | writeU (s : DVS) (i : Nat) (v : Int) (sc : List (Nat × Int)) (h : s.val i ≠ v) (hr : s.reg i = false) :
-      DVStep n f s (.locked i v sc) { s with val := setAt s.val i v } (.rel3 i sc)
+      DVStep n f trig s (.locked i v sc) { s with val := setAt s.val i v } (.rel3 i sc)
   | enter (s : DVS) (i : Nat) (v : Int) (sc : List (Nat × Int)) (h : s.ex i = false) :
-      DVStep n f s (.wrote i v sc) { s with ex := setAt s.ex i true } (.inCb i v (.writer sc))
+      DVStep n f trig s (.wrote i v sc) { s with ex := setAt s.ex i true } (.inCb i v (.writer sc))
   | register (s : DVS) (i : Nat) (rest : List Nat) (h : s.ex i = false) (hr : s.reg i = false) :
-      DVStep n f s (.cIdle (i :: rest)) { s with reg := setAt s.reg i true, ex := setAt s.ex i true }
+      DVStep n f trig s (.cIdle (i :: rest)) { s with reg := setAt s.reg i true, ex := setAt s.ex i true }
         (.inCb i (s.val i) (.ctor rest))
+  | skip (s : DVS) (i : Nat) (rest : List Nat) (h : s.ex i = false) (hr : s.reg i = false) (hz : s.val i = 0)
+      (ht : trig i = false) :
+      DVStep n f trig s (.cIdle (i :: rest)) { s with reg := setAt s.reg i true, ex := setAt s.ex i true }
+        (.rel2 i (.ctor rest))
   | begin (s : DVS) (i : Nat) (v : Int) (k : Kont) (h : s.dUpd = false) :
-      DVStep n f s (.inCb i v k) { s with dUpd := true }
+      DVStep n f trig s (.inCb i v k) { s with dUpd := true }
         (.comp i v (fun _ => 0) ((List.range n).filter (· != i)) k)
   | read (s : DVS) (i : Nat) (v : Int) (snap : Nat → Int) (j : Nat) (todo : List Nat) (k : Kont) :
-      DVStep n f s (.comp i v snap (j :: todo) k) s (.comp i v (setAt snap j (s.val j)) todo k)
+      DVStep n f trig s (.comp i v snap (j :: todo) k) s (.comp i v (setAt snap j (s.val j)) todo k)
   | commit (s : DVS) (i : Nat) (v : Int) (snap : Nat → Int) (k : Kont) :
-      DVStep n f s (.comp i v snap [] k) { s with d := f (setAt snap i v), seen := setAt snap i v } (.rel1 i k)
+      DVStep n f trig s (.comp i v snap [] k) { s with d := f (setAt snap i v), seen := setAt snap i v } (.rel1 i k)
   | relD (s : DVS) (i : Nat) (k : Kont) :
-      DVStep n f s (.rel1 i k) { s with dUpd := false } (.rel2 i k)
+      DVStep n f trig s (.rel1 i k) { s with dUpd := false } (.rel2 i k)
   | relExW (s : DVS) (i : Nat) (sc : List (Nat × Int)) :
-      DVStep n f s (.rel2 i (.writer sc)) { s with ex := setAt s.ex i false } (.rel3 i sc)
+      DVStep n f trig s (.rel2 i (.writer sc)) { s with ex := setAt s.ex i false } (.rel3 i sc)
   | relExC (s : DVS) (i : Nat) (rest : List Nat) :
-      DVStep n f s (.rel2 i (.ctor rest)) { s with ex := setAt s.ex i false } (.cIdle rest)
+      DVStep n f trig s (.rel2 i (.ctor rest)) { s with ex := setAt s.ex i false } (.cIdle rest)
   | relU (s : DVS) (i : Nat) (sc : List (Nat × Int)) :
-      DVStep n f s (.rel3 i sc) { s with upd := setAt s.upd i false } (.idle sc)
+      DVStep n f trig s (.rel3 i sc) { s with upd := setAt s.upd i false } (.idle sc)
 
-theorem dvStep_sound {n : Nat} {f : (Nat → Int) → Int} {s s' : DVS} {t t' : DVT}
-    (h : (s', t') ∈ dvStep n f s t) : DVStep n f s t s' t' := by
+theorem dvStep_sound {n : Nat} {f : (Nat → Int) → Int} {trig : Nat → Bool} {s s' : DVS} {t t' : DVT}
+    (h : (s', t') ∈ dvStep n f trig s t) : DVStep n f trig s t s' t' := by
   cases t with
   | idle sc =>
     cases sc with
@@ -167,10 +171,16 @@ theorem dvStep_sound {n : Nat} {f : (Nat → Int) → Int} {s s' : DVS} {t t' : 
       split at h
       · simp at h
       · next he =>
-        simp only [List.mem_singleton, Prod.mk.injEq] at h
-        obtain ⟨rfl, rfl⟩ := h
         simp only [Bool.or_eq_true, not_or, Bool.not_eq_true] at he
-        exact DVStep.register _ _ _ he.1 he.2
+        split at h
+        · simp only [List.mem_singleton, Prod.mk.injEq] at h
+          obtain ⟨rfl, rfl⟩ := h
+          exact DVStep.register _ _ _ he.1 he.2
+        · next hz =>
+          simp only [List.mem_singleton, Prod.mk.injEq] at h
+          obtain ⟨rfl, rfl⟩ := h
+          simp only [Bool.or_eq_true, bne_iff_ne, ne_eq, not_or, Decidable.not_not, Bool.not_eq_true] at hz
+          exact DVStep.skip _ _ _ he.1 he.2 hz.1 hz.2
   | inCb i v k =>
     simp only [dvStep] at h
     split at h
@@ -252,12 +262,23 @@ def ctorTodo : DVT → List Nat
   | .rel2 _ k => k.todo
   | _ => []
 
-/-- a constructor thread that has not committed the recompute for its current input yet -/
-def ctorEarly : DVT → Bool
-  | .cIdle (_ :: _) => true
+/-- a constructor thread that will still *start* a complete recompute: it has inputs left to subscribe to (the last
+subscription always triggers, invariant `L`), or it sits in front of `d.Compute` -/
+def pend : DVT → Bool
+  | .cIdle rest => !rest.isEmpty
   | .inCb _ _ k => !k.isW
-  | .comp _ _ _ _ k => !k.isW
+  | .comp _ _ _ _ k => !k.isW && !k.todo.isEmpty
+  | .rel1 _ k => !k.isW && !k.todo.isEmpty
+  | .rel2 _ k => !k.isW && !k.todo.isEmpty
   | _ => false
+
+/-- a constructor thread that will still *commit* a complete recompute -/
+def ctorEarly : DVT → Bool
+  | .comp _ _ _ _ k => !k.isW
+  | t => pend t
+
+theorem pend_early {t : DVT} (h : pend t = true) : ctorEarly t = true := by
+  cases t <;> simp_all [ctorEarly, pend]
 
 /-! ## Mutual exclusion by counting -/
 
@@ -269,9 +290,9 @@ def E3 (s : DVS) (ts : List DVT) : Prop := ts.countP holdsD = if s.dUpd then 1 e
 macro "dvar_count " c:term : tactic =>
   `(tactic| (cases hc : ($c : Bool) <;> simp [holdsUpd, holdsEx, holdsD, Kont.isW, setAt, *] at * <;> omega))
 
-variable {n : Nat} {f : (Nat → Int) → Int} {s s' : DVS} {t t' : DVT} {pre post : List DVT}
+variable {n : Nat} {f : (Nat → Int) → Int} {trig : Nat → Bool} {s s' : DVS} {t t' : DVT} {pre post : List DVT}
 
-theorem E1_pres (h : E1 s (pre ++ t :: post)) (hs : DVStep n f s t s' t') : E1 s' (pre ++ t' :: post) := by
+theorem E1_pres (h : E1 s (pre ++ t :: post)) (hs : DVStep n f trig s t s' t') : E1 s' (pre ++ t' :: post) := by
   intro j
   have hj := h j
   rw [countP_mid] at hj ⊢
@@ -288,6 +309,7 @@ theorem E1_pres (h : E1 s (pre ++ t :: post)) (hs : DVStep n f s t s' t') : E1 s
   | writeU i v sc h hr => simpa [holdsUpd] using hj
   | enter i v sc h => simpa [holdsUpd, Kont.isW] using hj
   | register i rest h hr => simpa [holdsUpd, Kont.isW] using hj
+  | skip i rest h hr hz ht => simpa [holdsUpd, Kont.isW] using hj
   | begin i v k h => simpa [holdsUpd] using hj
   | read i v snap j0 todo k => simpa [holdsUpd] using hj
   | commit i v snap k => simpa [holdsUpd] using hj
@@ -299,7 +321,7 @@ theorem E1_pres (h : E1 s (pre ++ t :: post)) (hs : DVStep n f s t s' t') : E1 s
     · subst hij; dvar_count (s.upd j)
     · dvar_count (s.upd j)
 
-theorem E2_pres (h : E2 s (pre ++ t :: post)) (hs : DVStep n f s t s' t') : E2 s' (pre ++ t' :: post) := by
+theorem E2_pres (h : E2 s (pre ++ t :: post)) (hs : DVStep n f trig s t s' t') : E2 s' (pre ++ t' :: post) := by
   intro j
   have hj := h j
   rw [countP_mid] at hj ⊢
@@ -319,6 +341,10 @@ theorem E2_pres (h : E2 s (pre ++ t :: post)) (hs : DVStep n f s t s' t') : E2 s
     by_cases hij : j = i
     · subst hij; dvar_count (s.ex j)
     · dvar_count (s.ex j)
+  | skip i rest h hr hz ht =>
+    by_cases hij : j = i
+    · subst hij; dvar_count (s.ex j)
+    · dvar_count (s.ex j)
   | begin i v k h => simpa [holdsEx] using hj
   | read i v snap j0 todo k => simpa [holdsEx] using hj
   | commit i v snap k => simpa [holdsEx] using hj
@@ -333,7 +359,7 @@ theorem E2_pres (h : E2 s (pre ++ t :: post)) (hs : DVStep n f s t s' t') : E2 s
     · dvar_count (s.ex j)
   | relU i sc => simpa [holdsEx] using hj
 
-theorem E3_pres (h : E3 s (pre ++ t :: post)) (hs : DVStep n f s t s' t') : E3 s' (pre ++ t' :: post) := by
+theorem E3_pres (h : E3 s (pre ++ t :: post)) (hs : DVStep n f trig s t s' t') : E3 s' (pre ++ t' :: post) := by
   have hj := h
   unfold E3 at hj ⊢
   rw [countP_mid] at hj ⊢
@@ -347,6 +373,7 @@ theorem E3_pres (h : E3 s (pre ++ t :: post)) (hs : DVStep n f s t s' t') : E3 s
   | writeU i v sc h hr => simpa [holdsD] using hj
   | enter i v sc h => simpa [holdsD] using hj
   | register i rest h hr => simpa [holdsD] using hj
+  | skip i rest h hr hz ht => simpa [holdsD] using hj
   | begin i v k h => dvar_count (s.dUpd)
   | read i v snap j0 todo k => simpa [holdsD] using hj
   | commit i v snap k => simpa [holdsD] using hj
@@ -370,19 +397,64 @@ def I1 (f : (Nat → Int) → Int) (s : DVS) (ts : List DVT) : Prop :=
 def P (n : Nat) (s : DVS) (ts : List DVT) : Prop :=
   ∀ j, j < n → s.reg j = true ∨ ∃ w ∈ ts, j ∈ ctorTodo w
 
-theorem todo_sub (hs : DVStep n f s t s' t') : ∀ j ∈ ctorTodo t', j ∈ ctorTodo t := by
+theorem todo_sub (hs : DVStep n f trig s t s' t') : ∀ j ∈ ctorTodo t', j ∈ ctorTodo t := by
   cases hs <;> simp [ctorTodo, Kont.todo] <;> (intro j hj; exact Or.inr hj)
 
-theorem reg_mono (hs : DVStep n f s t s' t') (j : Nat) (h : s.reg j = true) : s'.reg j = true := by
+theorem reg_mono (hs : DVStep n f trig s t s' t') (j : Nat) (h : s.reg j = true) : s'.reg j = true := by
   cases hs <;> simp [setAt, h]
 
-theorem C1_pres (h : C1 n (pre ++ t :: post)) (hs : DVStep n f s t s' t') : C1 n (pre ++ t' :: post) := by
+/-- the subscription to the last input of a constructor's list is made with `triggerWithInitialZeroValue` -/
+def LOK (trig : Nat → Bool) (t : DVT) : Prop := ∀ l, (ctorTodo t).getLast? = some l → trig l = true
+def L (trig : Nat → Bool) (ts : List DVT) : Prop := ∀ u ∈ ts, LOK trig u
+
+theorem todo_step (hs : DVStep n f trig s t s' t') : ctorTodo t' = ctorTodo t ∨ ∃ i, ctorTodo t = i :: ctorTodo t' := by
+  cases hs <;> simp [ctorTodo, Kont.todo]
+
+theorem getLast?_tail {α : Type} (i : α) (r : List α) (l : α) (h : r.getLast? = some l) :
+    (i :: r).getLast? = some l := by
+  cases r with
+  | nil => simp at h
+  | cons a r => simpa [List.getLast?_cons_cons] using h
+
+theorem L_pres (h : L trig (pre ++ t :: post)) (hs : DVStep n f trig s t s' t') : L trig (pre ++ t' :: post) := by
+  intro u hu l hl
+  rcases mem_mid.1 hu with rfl | hu
+  · rcases todo_step hs with e | ⟨i, e⟩
+    · exact h t mem_mid_self l (by rw [← e]; exact hl)
+    · exact h t mem_mid_self l (by rw [e]; exact getLast?_tail i _ l hl)
+  · exact h u (mem_mid_rest hu) l hl
+
+/-- a subscription that does not trigger is not the constructor's last one -/
+theorem skip_rest {i : Nat} {rest : List Nat} (hL : LOK trig (.cIdle (i :: rest))) (ht : trig i = false) :
+    rest.isEmpty = false := by
+  cases rest with
+  | nil =>
+    have := hL i (by simp [ctorTodo])
+    simp [ht] at this
+  | cons a r => rfl
+
+/-- a pending constructor stays pending until it enters `d.Compute` (which needs `d`'s update-order mutex) -/
+theorem pend_keep (hL : LOK trig t) (hs : DVStep n f trig s t s' t') (hp : pend t = true) :
+    pend t' = true ∨ s.dUpd = false := by
+  cases hs with
+  | begin i v k h => exact Or.inr h
+  | skip i rest he hr hz ht => exact Or.inl (by simp [pend, Kont.isW, Kont.todo, skip_rest hL ht])
+  | _ => left; simp_all [pend, Kont.isW, Kont.todo]
+
+theorem early_keep (hL : LOK trig t) (hs : DVStep n f trig s t s' t') (he : ctorEarly t = true) :
+    ctorEarly t' = true ∨ (∃ i v snap k, t = .comp i v snap [] k) := by
+  cases hs with
+  | commit i v snap k => exact Or.inr ⟨_, _, _, _, rfl⟩
+  | skip i rest he hr hz ht => exact Or.inl (by simp [ctorEarly, pend, Kont.isW, Kont.todo, skip_rest hL ht])
+  | _ => left; simp_all [ctorEarly, pend, Kont.isW, Kont.todo]
+
+theorem C1_pres (h : C1 n (pre ++ t :: post)) (hs : DVStep n f trig s t s' t') : C1 n (pre ++ t' :: post) := by
   intro u hu j hj
   rcases mem_mid.1 hu with rfl | hu
   · exact h t mem_mid_self j (todo_sub hs j hj)
   · exact h u (mem_mid_rest hu) j hj
 
-theorem I7_pres (hc : C1 n (pre ++ t :: post)) (h : I7 n s) (hs : DVStep n f s t s' t') : I7 n s' := by
+theorem I7_pres (hc : C1 n (pre ++ t :: post)) (h : I7 n s) (hs : DVStep n f trig s t s' t') : I7 n s' := by
   intro j hj
   have ht := hc t mem_mid_self
   cases hs with
@@ -390,26 +462,43 @@ theorem I7_pres (hc : C1 n (pre ++ t :: post)) (h : I7 n s) (hs : DVStep n f s t
     by_cases hij : j = i
     · subst hij; exact ht j (by simp [ctorTodo])
     · exact h j (by simpa [setAt, hij] using hj)
+  | skip i rest he hr hz htr =>
+    by_cases hij : j = i
+    · subst hij; exact ht j (by simp [ctorTodo])
+    · exact h j (by simpa [setAt, hij] using hj)
   | _ => exact h j hj
 
-theorem I5_pres (h : I5 s (pre ++ t :: post)) (hs : DVStep n f s t s' t') : I5 s' (pre ++ t' :: post) := by
+theorem I5_pres (h : I5 s (pre ++ t :: post)) (hs : DVStep n f trig s t s' t') : I5 s' (pre ++ t' :: post) := by
   intro u hu j hj
   rcases mem_mid.1 hu with rfl | hu
   · have ht := h t mem_mid_self j
     cases hs <;> simp_all [inflight, setAt]
   · exact reg_mono hs j (h u (mem_mid_rest hu) j hj)
 
-theorem I1_pres (h : I1 f s (pre ++ t :: post)) (hs : DVStep n f s t s' t') : I1 f s' (pre ++ t' :: post) := by
+theorem I1_pres (hL : L trig (pre ++ t :: post)) (h : I1 f s (pre ++ t :: post)) (hs : DVStep n f trig s t s' t') :
+    I1 f s' (pre ++ t' :: post) := by
+  have hLt := hL t mem_mid_self
   cases hs with
   | commit i v snap k => exact Or.inl rfl
-  | _ => exact h.imp id (fun hw => exists_mid hw (by simp [ctorEarly, Kont.isW]))
+  | skip i rest he hr hz ht =>
+    exact h.imp id (fun hw => exists_mid hw
+      (fun _ => by simp [ctorEarly, pend, Kont.isW, Kont.todo, skip_rest hLt ht]))
+  | _ => exact h.imp id (fun hw => exists_mid hw (by simp [ctorEarly, pend, Kont.isW, Kont.todo]))
 
-theorem P_pres (h : P n s (pre ++ t :: post)) (hs : DVStep n f s t s' t') : P n s' (pre ++ t' :: post) := by
+theorem P_pres (h : P n s (pre ++ t :: post)) (hs : DVStep n f trig s t s' t') : P n s' (pre ++ t' :: post) := by
   intro j hj
   rcases h j hj with hr | hw
   · exact Or.inl (reg_mono hs j hr)
   · cases hs with
     | register i rest he hr =>
+      obtain ⟨w, hw, hjw⟩ := hw
+      rcases mem_mid.1 hw with rfl | hw
+      · simp only [ctorTodo, List.mem_cons] at hjw
+        rcases hjw with rfl | hjw
+        · exact Or.inl (by simp)
+        · exact Or.inr (exists_new (by simpa [ctorTodo, Kont.todo] using hjw))
+      · exact Or.inr ⟨w, mem_mid_rest hw, hjw⟩
+    | skip i rest he hr hz htr =>
       obtain ⟨w, hw, hjw⟩ := hw
       rcases mem_mid.1 hw with rfl | hw
       · simp only [ctorTodo, List.mem_cons] at hjw
@@ -446,7 +535,7 @@ theorem wArg_setAt {val : Nat → Int} {i : Nat} {v : Int} {u : DVT} (hx : holds
     simpa [setAt_other _ _ _ _ hne] using h hk
   | _ => trivial
 
-theorem I6_pres (hE : E1 s (pre ++ t :: post)) (h : I6 s (pre ++ t :: post)) (hs : DVStep n f s t s' t') :
+theorem I6_pres (hE : E1 s (pre ++ t :: post)) (h : I6 s (pre ++ t :: post)) (hs : DVStep n f trig s t s' t') :
     I6 s' (pre ++ t' :: post) := by
   intro u hu
   rcases mem_mid.1 hu with rfl | hu2
@@ -469,7 +558,7 @@ def cArg (val : Nat → Int) (ts : List DVT) : DVT → Prop
 def I4 (s : DVS) (ts : List DVT) : Prop := ∀ u ∈ ts, cArg s.val ts u
 
 /-- a change of a registered input leaves the writer in state `wrote` -/
-theorem val_change (hs : DVStep n f s t s' t') (j : Nat) (hr : s.reg j = true) (hne : s'.val j ≠ s.val j) :
+theorem val_change (hs : DVStep n f trig s t s' t') (j : Nat) (hr : s.reg j = true) (hne : s'.val j ≠ s.val j) :
     isWrote j t' = true := by
   cases hs with
   | write i v sc hv hr =>
@@ -483,12 +572,12 @@ theorem val_change (hs : DVStep n f s t s' t') (j : Nat) (hr : s.reg j = true) (
   | _ => exact absurd rfl hne
 
 /-- a thread leaves state `wrote` only by taking the free execution lock -/
-theorem wrote_leave (hs : DVStep n f s t s' t') (j : Nat) (hw : isWrote j t = true) :
+theorem wrote_leave (hs : DVStep n f trig s t s' t') (j : Nat) (hw : isWrote j t = true) :
     isWrote j t' = true ∨ s.ex j = false := by
   cases hs <;> simp_all [isWrote]
 
 theorem I4_pres (hE : E2 s (pre ++ t :: post)) (h5 : I5 s (pre ++ t :: post)) (h : I4 s (pre ++ t :: post))
-    (hs : DVStep n f s t s' t') : I4 s' (pre ++ t' :: post) := by
+    (hs : DVStep n f trig s t s' t') : I4 s' (pre ++ t' :: post) := by
   intro u hu
   rcases mem_mid.1 hu with rfl | hu2
   · have ht := h t mem_mid_self
@@ -496,6 +585,7 @@ theorem I4_pres (hE : E2 s (pre ++ t :: post)) (h5 : I5 s (pre ++ t :: post)) (h
     | begin i v k hd => intro hk hne; exact exists_mid (ht hk hne) (by simp [isWrote])
     | read i v snap j todo k => intro hk hne; exact exists_mid (ht hk hne) (by simp [isWrote])
     | register i rest he hr => intro _ hne; exact absurd rfl hne
+    | skip i rest he hr hz htr => trivial
     | enter i v sc he => intro hk; simp [Kont.isW] at hk
     | _ => trivial
   · have hu' := h u (mem_mid_rest hu2)
@@ -528,29 +618,39 @@ theorem committing_holdsD {t : DVT} (h : committing t = true) : holdsD t = true 
   | _ => simp [committing] at h
 
 /-- a thread stays in flight until it commits -/
-theorem inflight_keep (hs : DVStep n f s t s' t') (j : Nat) (hin : inflight j t = true) :
+theorem inflight_keep (hs : DVStep n f trig s t s' t') (j : Nat) (hin : inflight j t = true) :
     inflight j t' = true ∨ committing t = true := by
   cases hs <;> simp_all [inflight, committing]
 
-/-- every change of a (now) registered input, and every registration, puts the moving thread in flight -/
-theorem cover (hs : DVStep n f s t s' t') (j : Nat) (hreg : s'.reg j = true)
-    (hch : s.reg j = false ∨ s'.val j ≠ s.val j) : inflight j t' = true := by
+/-- every change of a (now) registered input, and every registration, puts the moving thread in flight — or, for a
+registration that does not trigger, leaves a constructor that has further inputs to subscribe to -/
+theorem cover (hL : LOK trig t) (hs : DVStep n f trig s t s' t') (j : Nat) (hreg : s'.reg j = true)
+    (hch : s.reg j = false ∨ s'.val j ≠ s.val j) : inflight j t' = true ∨ pend t' = true := by
   cases hs with
   | write i v sc hv hr =>
+    left
     by_cases hij : j = i
     · simp [inflight, hij]
     · rcases hch with h | h
       · simp [show s.reg j = true from hreg] at h
       · simp [setAt, hij] at h
   | writeU i v sc hv hr =>
+    left
     by_cases hij : j = i
     · subst hij; simp [hr] at hreg
     · rcases hch with h | h
       · simp [show s.reg j = true from hreg] at h
       · simp [setAt, hij] at h
   | register i rest he hr =>
+    left
     by_cases hij : j = i
     · simp [inflight, hij]
+    · rcases hch with h | h
+      · simp [setAt, hij, h] at hreg
+      · exact absurd rfl h
+  | skip i rest he hr hz ht =>
+    by_cases hij : j = i
+    · right; simp [pend, Kont.isW, Kont.todo, skip_rest hL ht]
     · rcases hch with h | h
       · simp [setAt, hij, h] at hreg
       · exact absurd rfl h
@@ -559,16 +659,18 @@ theorem cover (hs : DVStep n f s t s' t') (j : Nat) (hreg : s'.reg j = true)
     · simp [show s.reg j = true from hreg] at h
     · exact absurd rfl h
 
-/-- the reads done so far by a recompute are current, or covered by a thread in flight -/
+/-- the reads done so far by a recompute are current, or covered by a thread in flight, or a constructor will still
+start a complete recompute (a registration that did not trigger may have left a stale read uncovered) -/
 def compOK (n : Nat) (val : Nat → Int) (reg : Nat → Bool) (ts : List DVT) : DVT → Prop
   | .comp i _ snap todo _ => ∀ j, j ≠ i → j < n → j ∉ todo → reg j = true → snap j ≠ val j →
-      ∃ w ∈ ts, inflight j w = true
+      (∃ w ∈ ts, inflight j w = true) ∨ (∃ w ∈ ts, pend w = true)
   | _ => True
 
 def I3 (n : Nat) (s : DVS) (ts : List DVT) : Prop := ∀ u ∈ ts, compOK n s.val s.reg ts u
 
-theorem I3_pres (hE : E3 s (pre ++ t :: post)) (h : I3 n s (pre ++ t :: post)) (hs : DVStep n f s t s' t') :
-    I3 n s' (pre ++ t' :: post) := by
+theorem I3_pres (hL : L trig (pre ++ t :: post)) (hE : E3 s (pre ++ t :: post)) (h : I3 n s (pre ++ t :: post))
+    (hs : DVStep n f trig s t s' t') : I3 n s' (pre ++ t' :: post) := by
+  have hLt := hL t mem_mid_self
   intro u hu
   rcases mem_mid.1 hu with rfl | hu2
   · have ht := h t mem_mid_self
@@ -581,7 +683,9 @@ theorem I3_pres (hE : E3 s (pre ++ t :: post)) (h : I3 n s (pre ++ t :: post)) (
       by_cases hj0 : j = j0
       · subst hj0; simp at hne
       · rw [setAt_other _ _ _ _ hj0] at hne
-        exact exists_mid (ht j hji hjn (by simp [hj0, hjt]) hreg hne) (by simp [inflight])
+        rcases ht j hji hjn (by simp [hj0, hjt]) hreg hne with hh | hh
+        · exact Or.inl (exists_mid hh (by simp [inflight]))
+        · exact Or.inr (exists_mid hh (by simp [pend]))
     | _ => trivial
   · have hu' := h u (mem_mid_rest hu2)
     cases u with
@@ -589,45 +693,66 @@ theorem I3_pres (hE : E3 s (pre ++ t :: post)) (h : I3 n s (pre ++ t :: post)) (
       intro j hji hjn hjt hreg hne
       by_cases hc : s.reg j = true ∧ s'.val j = s.val j
       · rw [hc.2] at hne
-        refine exists_mid (hu' j hji hjn hjt hc.1 hne) (fun hin => ?_)
-        rcases inflight_keep hs j hin with h' | h'
-        · exact h'
-        · have := excl_of_count hE (committing_holdsD h') hu2
-          simp [holdsD] at this
-      · refine exists_new (cover hs j hreg ?_)
-        cases hr : s.reg j with
-        | false => exact Or.inl rfl
-        | true => exact Or.inr (fun e => hc ⟨hr, e⟩)
+        rcases hu' j hji hjn hjt hc.1 hne with hh | hh
+        · refine Or.inl (exists_mid hh (fun hin => ?_))
+          rcases inflight_keep hs j hin with h' | h'
+          · exact h'
+          · have := excl_of_count hE (committing_holdsD h') hu2
+            simp [holdsD] at this
+        · refine Or.inr (exists_mid hh (fun hp => ?_))
+          rcases pend_keep hLt hs hp with h' | h'
+          · exact h'
+          · have := free_of_count hE h' (mem_mid_rest hu2)
+            simp [holdsD] at this
+      · have hch : s.reg j = false ∨ s'.val j ≠ s.val j := by
+          cases hr : s.reg j with
+          | false => exact Or.inl rfl
+          | true => exact Or.inr (fun e => hc ⟨hr, e⟩)
+        rcases cover hLt hs j hreg hch with h' | h'
+        · exact Or.inl (exists_new h')
+        · exact Or.inr (exists_new h')
     | _ => trivial
 
 /-! ## The committed vector -/
 
-/-- every difference between the committed vector and the inputs is covered by a thread in flight -/
+/-- every difference between the committed vector and the inputs is covered by a thread in flight, or by a
+constructor that will still commit a complete recompute -/
 def I2 (s : DVS) (ts : List DVT) : Prop :=
-  ∀ j, s.reg j = true → s.seen j ≠ s.val j → ∃ w ∈ ts, inflight j w = true
+  ∀ j, s.reg j = true → s.seen j ≠ s.val j →
+    (∃ w ∈ ts, inflight j w = true) ∨ (∃ w ∈ ts, ctorEarly w = true)
 
 theorem isWrote_inflight {j : Nat} {w : DVT} (h : isWrote j w = true) : inflight j w = true := by
   cases w <;> simp_all [isWrote, inflight]
 
-theorem seen_same (hs : DVStep n f s t s' t') (hnc : committing t = false) : s'.seen = s.seen := by
+theorem seen_same (hs : DVStep n f trig s t s' t') (hnc : committing t = false) : s'.seen = s.seen := by
   cases hs <;> first | rfl | simp [committing] at hnc
 
-theorem I2_pres (h3 : I3 n s (pre ++ t :: post)) (h4 : I4 s (pre ++ t :: post)) (h6 : I6 s (pre ++ t :: post))
-    (h7 : I7 n s) (h : I2 s (pre ++ t :: post)) (hs : DVStep n f s t s' t') : I2 s' (pre ++ t' :: post) := by
+theorem I2_pres (hL : L trig (pre ++ t :: post)) (h3 : I3 n s (pre ++ t :: post)) (h4 : I4 s (pre ++ t :: post))
+    (h6 : I6 s (pre ++ t :: post))
+    (h7 : I7 n s) (h : I2 s (pre ++ t :: post)) (hs : DVStep n f trig s t s' t') : I2 s' (pre ++ t' :: post) := by
+  have hLt := hL t mem_mid_self
   intro j hreg hne
   cases hcm : committing t with
   | false =>
     rw [seen_same hs hcm] at hne
     by_cases hc : s.reg j = true ∧ s'.val j = s.val j
     · rw [hc.2] at hne
-      refine exists_mid (h j hc.1 hne) (fun hin => ?_)
-      rcases inflight_keep hs j hin with h' | h'
-      · exact h'
-      · simp [hcm] at h'
-    · refine exists_new (cover hs j hreg ?_)
-      cases hr : s.reg j with
-      | false => exact Or.inl rfl
-      | true => exact Or.inr (fun e => hc ⟨hr, e⟩)
+      rcases h j hc.1 hne with hh | hh
+      · refine Or.inl (exists_mid hh (fun hin => ?_))
+        rcases inflight_keep hs j hin with h' | h'
+        · exact h'
+        · simp [hcm] at h'
+      · refine Or.inr (exists_mid hh (fun he => ?_))
+        rcases early_keep hLt hs he with h' | ⟨i, v, snap, k, rfl⟩
+        · exact h'
+        · simp [committing] at hcm
+    · have hch : s.reg j = false ∨ s'.val j ≠ s.val j := by
+        cases hr : s.reg j with
+        | false => exact Or.inl rfl
+        | true => exact Or.inr (fun e => hc ⟨hr, e⟩)
+      rcases cover hLt hs j hreg hch with h' | h'
+      · exact Or.inl (exists_new h')
+      · exact Or.inr (exists_new (pend_early h'))
   | true =>
     have ht3 := h3 t mem_mid_self
     have ht4 := h4 t mem_mid_self
@@ -642,15 +767,18 @@ theorem I2_pres (h3 : I3 n s (pre ++ t :: post)) (h4 : I4 s (pre ++ t :: post)) 
         | true => exact absurd (ht6 hk) hne'
         | false =>
           obtain ⟨w, hw, hq⟩ := exists_mid (ht4 hk hne') (t' := DVT.rel1 j k) (by simp [isWrote])
-          exact ⟨w, hw, isWrote_inflight hq⟩
+          exact Or.inl ⟨w, hw, isWrote_inflight hq⟩
       · have hne' : snap j ≠ s.val j := by
           intro e; apply hne; simp [setAt, hij, e]
-        exact exists_mid (ht3 j hij (h7 j hreg) (by simp) hreg hne') (by simp [inflight, hij])
+        rcases ht3 j hij (h7 j hreg) (by simp) hreg hne' with hh | hh
+        · exact Or.inl (exists_mid hh (by simp [inflight, hij]))
+        · obtain ⟨w, hw, hq⟩ := exists_mid hh (t' := DVT.rel1 i k) (by simp [pend])
+          exact Or.inr ⟨w, hw, pend_early hq⟩
     | _ => simp [committing] at hcm
 
 /-! ## The combined invariant -/
 
-structure Inv (n : Nat) (f : (Nat → Int) → Int) (c : Cfg DVS DVT) : Prop where
+structure Inv (n : Nat) (f : (Nat → Int) → Int) (trig : Nat → Bool) (c : Cfg DVS DVT) : Prop where
   e1 : E1 c.1 c.2
   e2 : E2 c.1 c.2
   e3 : E3 c.1 c.2
@@ -663,21 +791,23 @@ structure Inv (n : Nat) (f : (Nat → Int) → Int) (c : Cfg DVS DVT) : Prop whe
   i2 : I2 c.1 c.2
   i1 : I1 f c.1 c.2
   p : P n c.1 c.2
+  l : L trig c.2
 
-theorem Inv_step (a b : Cfg DVS DVT) (h : Inv n f a) (hs : Step (dvSys n f) a b) : Inv n f b := by
+theorem Inv_step (a b : Cfg DVS DVT) (h : Inv n f trig a) (hs : Step (dvSys n f trig) a b) : Inv n f trig b := by
   cases hs with
   | mk s pre t post s' t' hmem =>
-    have hd : DVStep n f s t s' t' := dvStep_sound hmem
+    have hd : DVStep n f trig s t s' t' := dvStep_sound hmem
     exact ⟨E1_pres h.e1 hd, E2_pres h.e2 hd, E3_pres h.e3 hd, C1_pres h.c1 hd, I7_pres h.c1 h.i7 hd,
-      I5_pres h.i5 hd, I6_pres h.e1 h.i6 hd, I4_pres h.e2 h.i5 h.i4 hd, I3_pres h.e3 h.i3 hd,
-      I2_pres h.i3 h.i4 h.i6 h.i7 h.i2 hd, I1_pres h.i1 hd, P_pres h.p hd⟩
+      I5_pres h.i5 hd, I6_pres h.e1 h.i6 hd, I4_pres h.e2 h.i5 h.i4 hd, I3_pres h.l h.e3 h.i3 hd,
+      I2_pres h.l h.i3 h.i4 h.i6 h.i7 h.i2 hd, I1_pres h.l h.i1 hd, P_pres h.p hd, L_pres h.l hd⟩
 
 /-- Initial configurations: all locks free, only idle writers and constructors that have not started. -/
 theorem Inv_init (s : DVS) (ts : List DVT)
     (hts : ∀ u ∈ ts, (∃ r, u = DVT.cIdle r ∧ ∀ j ∈ r, j < n) ∨ ∃ sc, u = DVT.idle sc)
     (hu : ∀ j, s.upd j = false) (he : ∀ j, s.ex j = false) (hd : s.dUpd = false)
-    (h7 : I7 n s) (h2 : ∀ j, s.reg j = true → s.seen j = s.val j) (h1 : I1 f s ts) (hp : P n s ts) :
-    Inv n f (s, ts) where
+    (h7 : I7 n s) (h2 : ∀ j, s.reg j = true → s.seen j = s.val j) (h1 : I1 f s ts) (hp : P n s ts)
+    (hl : L trig ts) :
+    Inv n f trig (s, ts) where
   e1 := by
     intro j
     simp only [hu j, Bool.false_eq_true, if_false]
@@ -717,6 +847,7 @@ theorem Inv_init (s : DVS) (ts : List DVT)
   i2 := fun j hr hne => absurd (h2 j hr) hne
   i1 := h1
   p := hp
+  l := hl
 
 theorem fin_cases {t : DVT} (h : t.finished = true) : t = DVT.idle [] ∨ t = DVT.cIdle [] := by
   cases t with
@@ -732,11 +863,11 @@ theorem fin_cases {t : DVT} (h : t.finished = true) : t = DVT.idle [] ∨ t = DV
 
 /-- In a quiescent configuration satisfying the invariant the derived value is up to date. -/
 theorem quiescent_of_inv (hf : ∀ a b : Nat → Int, (∀ j, j < n → a j = b j) → f a = f b)
-    {c : Cfg DVS DVT} (h : Inv n f c) (hq : ∀ t ∈ c.2, t.finished = true) : c.1.d = f c.1.val := by
+    {c : Cfg DVS DVT} (h : Inv n f trig c) (hq : ∀ t ∈ c.2, t.finished = true) : c.1.d = f c.1.val := by
   have h1 : c.1.d = f c.1.seen := by
     rcases h.i1 with h1 | ⟨w, hw, hearly⟩
     · exact h1
-    · rcases fin_cases (hq w hw) with rfl | rfl <;> simp [ctorEarly] at hearly
+    · rcases fin_cases (hq w hw) with rfl | rfl <;> simp [ctorEarly, pend] at hearly
   rw [h1]
   apply hf
   intro j hj
@@ -746,20 +877,31 @@ theorem quiescent_of_inv (hf : ∀ a b : Nat → Int, (∀ j, j < n → a j = b 
     · rcases fin_cases (hq w hw) with rfl | rfl <;> simp [ctorTodo] at hjw
   by_cases e : c.1.seen j = c.1.val j
   · exact e
-  · obtain ⟨w, hw, hin⟩ := h.i2 j hreg e
-    rcases fin_cases (hq w hw) with rfl | rfl <;> simp [inflight] at hin
+  · rcases h.i2 j hreg e with ⟨w, hw, hin⟩ | ⟨w, hw, hin⟩
+    · rcases fin_cases (hq w hw) with rfl | rfl <;> simp [inflight] at hin
+    · rcases fin_cases (hq w hw) with rfl | rfl <;> simp [ctorEarly, pend] at hin
 
 end DVar
 open DVar
 
-/-- Main: construction concurrent with writers. -/
-theorem dv_quiescent (n : Nat) (hn : 0 < n) (f : (Nat → Int) → Int)
+theorem getLast?_range_eq {n l : Nat} (h : (List.range n).getLast? = some l) : l = n - 1 := by
+  cases n with
+  | zero => simp at h
+  | succ m =>
+    rw [List.range_succ, List.getLast?_append] at h
+    simp at h
+    omega
+
+/-- Main: construction concurrent with writers.  `trig i` is the `triggerWithInitialZeroValue` flag of the
+subscription to input `i`; what the result needs is the flag of the **last** subscription (that one recomputes from
+all inputs whatever their values are) — `dv_quiescent_needs_last_flag` shows it cannot be dropped. -/
+theorem dv_quiescent (n : Nat) (hn : 0 < n) (f : (Nat → Int) → Int) (trig : Nat → Bool) (htrig : trig (n - 1) = true)
     (hf : ∀ a b : Nat → Int, (∀ j, j < n → a j = b j) → f a = f b)
     (val0 : Nat → Int) (d0 : Int) (writers : List (List (Nat × Int))) (c : Cfg DVS DVT)
-    (hr : Reach (dvSys n f) (DVS.fresh val0 d0, DVT.cIdle (List.range n) :: writers.map DVT.idle) c)
+    (hr : Reach (dvSys n f trig) (DVS.fresh val0 d0, DVT.cIdle (List.range n) :: writers.map DVT.idle) c)
     (hq : ∀ t ∈ c.2, t.finished = true) :
     c.1.d = f c.1.val := by
-  refine quiescent_of_inv hf (inv_induction (Inv n f) ?_ Inv_step hr) hq
+  refine quiescent_of_inv hf (inv_induction (Inv n f trig) ?_ Inv_step hr) hq
   apply Inv_init
   · intro u hu
     simp only [List.mem_cons, List.mem_map] at hu
@@ -780,18 +922,24 @@ theorem dv_quiescent (n : Nat) (hn : 0 < n) (f : (Nat → Int) → Int)
     | cons a r => rfl
   · intro j hj
     exact Or.inr ⟨_, List.mem_cons_self, by simpa [ctorTodo] using hj⟩
+  · intro u hu l hl
+    simp only [List.mem_cons, List.mem_map] at hu
+    rcases hu with rfl | ⟨sc, _, rfl⟩
+    · have hl' : (List.range n).getLast? = some l := by simpa [ctorTodo] using hl
+      rw [getLast?_range_eq hl']; exact htrig
+    · simp [ctorTodo] at hl
 
 /-- Steady state: the derived variable already exists (all `n` callbacks registered, value up to
 date), only writers. -/
-theorem dv_quiescent_steady (n : Nat) (f : (Nat → Int) → Int)
+theorem dv_quiescent_steady (n : Nat) (f : (Nat → Int) → Int) (trig : Nat → Bool)
     (hf : ∀ a b : Nat → Int, (∀ j, j < n → a j = b j) → f a = f b)
     (val0 : Nat → Int) (writers : List (List (Nat × Int))) (c : Cfg DVS DVT)
-    (hr : Reach (dvSys n f)
+    (hr : Reach (dvSys n f trig)
       ({ val := val0, upd := fun _ => false, ex := fun _ => false, reg := fun i => decide (i < n), dUpd := false,
          d := f val0, seen := val0 }, writers.map DVT.idle) c)
     (hq : ∀ t ∈ c.2, t.finished = true) :
     c.1.d = f c.1.val := by
-  refine quiescent_of_inv hf (inv_induction (Inv n f) ?_ Inv_step hr) hq
+  refine quiescent_of_inv hf (inv_induction (Inv n f trig) ?_ Inv_step hr) hq
   apply Inv_init
   · intro u hu
     simp only [List.mem_map] at hu
@@ -805,15 +953,37 @@ theorem dv_quiescent_steady (n : Nat) (f : (Nat → Int) → Int)
   · exact Or.inl rfl
   · intro j hj
     exact Or.inl (by simpa using hj)
+  · intro u hu l hl
+    simp only [List.mem_map] at hu
+    obtain ⟨sc, _, rfl⟩ := hu
+    simp [ctorTodo] at hl
 
 /-- The hypothesis `0 < n` of `dv_quiescent` is needed: without inputs no callback ever runs, so `d`
 keeps its initial value whatever `f` is. -/
 theorem dv_quiescent_needs_input :
     ¬ (∀ (f : (Nat → Int) → Int) (val0 : Nat → Int) (d0 : Int) (c : Cfg DVS DVT),
-        Reach (dvSys 0 f) (DVS.fresh val0 d0, [DVT.cIdle (List.range 0)]) c →
+        Reach (dvSys 0 f (fun _ => true)) (DVS.fresh val0 d0, [DVT.cIdle (List.range 0)]) c →
         (∀ t ∈ c.2, t.finished = true) → c.1.d = f c.1.val) := by
   intro h
   have h' := h (fun _ => 0) (fun _ => 0) 1 _ (Reach.refl _) (by simp [DVT.finished])
   simp [DVS.fresh] at h'
+
+/-- The schedule of the missing last flag: the constructor of a two-input variable computes the initial value from
+`(1, 5)` (first subscription, paused in front of the commit), a writer clears input 1 (nobody is subscribed to it
+yet), the constructor commits and subscribes to input 1, which holds the zero value. -/
+def dvLastFlagSched : List (Nat × Nat) :=
+  [(0, 0), (0, 0), (0, 0), (1, 0), (1, 0), (1, 0), (0, 0), (0, 0), (0, 0), (0, 0), (0, 0)]
+
+def dvLastFlagInit : Cfg DVS DVT :=
+  (DVS.fresh (fun i => if i == 0 then 1 else if i == 1 then 5 else 0) 0, [DVT.cIdle (List.range 2), DVT.idle [(1, 0)]])
+
+/-- The hypothesis on the last subscription's flag is needed: with `triggerWithInitialZeroValue` only on the first
+of two subscriptions the schedule above ends with every thread finished and `d = f (1, 5) = 15` although the inputs are
+`(1, 0)`. -/
+theorem dv_quiescent_needs_last_flag :
+    let f : (Nat → Int) → Int := fun a => 10 * a 0 + a 1
+    let c := runSched (dvSys 2 f (fun i => i == 0)) dvLastFlagInit dvLastFlagSched
+    (c.2.all DVT.finished = true ∧ c.1.d = 15 ∧ f c.1.val = 10) := by
+  decide
 
 end Hive.Derived
